@@ -1448,6 +1448,32 @@ def classify_typed(ln, out):
     return ks
 
 
+def growth_then_later_index(rec):
+    """Does a contextual rule of the font apply a GROWING nested lookup (multiple substitution, a sequence of >= 2 glyphs) and
+    then a record with a greater sequence index?  The crate (like HarfBuzz, apply_lookup: "Recursed lookup changed buffer
+    len. Adjust.") makes the inserted glyphs part of the matched sequence, so the later index counts them; the executable
+    specification Spec/OpenTypeSubst.lean::applyRecords keeps counting the original input glyphs.  The two readings differ
+    there (nothing to do with feature ranges): such fonts are not judged against the specification — they stay in the
+    feature-shape-gsub correspondence, where the interpreter model follows the crate."""
+    lookups = rec["gsub"]["lookups"]
+    def grows(li):
+        return (li < len(lookups) and lookups[li]["type"] == 2
+                and any(len(q) >= 2 for st in lookups[li]["subtables"] for q in st["sequences"]))
+    def bad(recs):
+        return any(grows(l1) and i2 > i1 for k, (i1, l1) in enumerate(recs) for (i2, _) in recs[k + 1:])
+    for lk in lookups:
+        if lk["type"] not in (5, 6):
+            continue
+        for st in lk["subtables"]:
+            if st["format"] == 3:
+                if bad(st["lookups"]): return True
+            else:
+                for rs in st.get("rulesets") or []:
+                    for ru in rs or []:
+                        if bad(ru["lookups"]): return True
+    return False
+
+
 def typed_search(ctx, shim, model, cases):
     import C06 as _c06
     g_shape, g_spec, meta = typed_groups(cases), [], []
@@ -1459,14 +1485,17 @@ def typed_search(ctx, shim, model, cases):
         g_spec.append(lm); meta.append(mm)
     a = vlib.run_groups(shim, g_shape, timeout=600)
     b = vlib.run_groups(model, g_spec, timeout=600)
-    n = indom = bad = acted = ranged_hit = 0
+    n = indom = bad = acted = ranged_hit = ndrift = 0
     by_type, devs = {}, []
     for (fid, rec, reg, facts, cs), ls, lm, mm, xs, ys in zip(cases, g_shape, g_spec, meta, a, b):
         kinds = sorted({lk["type"] for lk in rec["gsub"]["lookups"]})
+        drift = growth_then_later_index(rec)
         for (feats, text), req, sreq, st, x, y in zip(cs, ls[1:], lm[1:], mm, xs[1:], ys[1:]):
             n += 1
             ok, cmpcl = _c06.in_spec_domain(rec, st)
-            if not ok or not y.startswith("ok "):
+            if drift:
+                ndrift += 1
+            if not ok or drift or not y.startswith("ok "):
                 continue
             if not x.startswith("ok "):
                 bad += 1
@@ -1505,6 +1534,7 @@ def typed_search(ctx, shim, model, cases):
                        "recipe": {k: v for k, v in rec.items() if k != "seqs"},
                        "expected": exp, "observed": x, "clusters_compared": cmpcl})
     ctx.note_search("feature-shape-typed", n, acted, in_domain=indom, deviations=bad, substituted=acted,
+                    not_judged_growth_then_later_sequence_index=ndrift,
                     substituted_under_partial_range=ranged_hit, substituted_by_font_lookup_types=by_type, fonts=len(cases),
                     rule="generated GSUB(/GDEF) fonts with lookups of types 1, 2, 3, 4, 5, 6 (formats 1 and 3, nested single / multiple "
                          "lookups) and 8 (reverse chaining, with and without backtrack / lookahead), 1-2 default-on and 2-4 optional "
@@ -1513,7 +1543,9 @@ def typed_search(ctx, shim, model, cases):
                          "optional features) plus random lists of 1-3 entries on texts of 1-6 glyphs (shared and sparse clusters). "
                          "Oracle: Spec.applyAll (Spec/OpenTypeSubst.lean) over all referenced lookups in lookup-list order with glyph "
                          "and lookup masks computed from the per-cluster feature values in the oracle's own bit layout; judged on the "
-                         "specification's domain of unambiguity; non-trivial = some glyph was substituted")
+                         "specification's domain of unambiguity, and not on fonts where a contextual rule applies a growing nested "
+                         "lookup and then a record with a greater sequence index (counted; the specification model and HarfBuzz read "
+                         "that index differently); non-trivial = some glyph was substituted")
 
 
 # ------------------------------------------------------------------------------------------------
